@@ -58,6 +58,7 @@ const (
 	OFToS // Go/amd64 semantics handled by caller
 	OFFloor
 	OUF // uninterpreted function: name, args
+	OMulHiS // signed high word of the double-width product
 )
 
 var opNames = map[Op]string{
@@ -857,6 +858,30 @@ func mkFToInt(a *Term, w int) *Term {
 	return ts.intern(t)
 }
 
+func mulHiS(a, b int64) int64 {
+	hi, _ := bits.Mul64(uint64(a), uint64(b))
+	h := int64(hi)
+	if a < 0 {
+		h -= b
+	}
+	if b < 0 {
+		h -= a
+	}
+	return h
+}
+
+func mkMulHiS(a, b *Term) *Term {
+	if a.w != 64 || b.w != 64 {
+		panic("mkMulHiS width")
+	}
+	if a.isConst() && b.isConst() {
+		return mkConstS(64, mulHiS(a.sval(), b.sval()))
+	}
+	t := &Term{op: OMulHiS, kind: 'v', w: 64, a: []*Term{a, b}}
+	t.lo, t.hi = fullRange(64)
+	return ts.intern(t)
+}
+
 func mkUF(name string, kind byte, w int, args ...*Term) *Term {
 	t := &Term{op: OUF, kind: kind, w: w, name: name, a: args}
 	if kind == 'v' {
@@ -979,6 +1004,8 @@ func (p *smtPrinter) expr(t *Term) string {
 		hi := math.Float64bits(math.Ldexp(1, t.w-1))
 		return fmt.Sprintf("(ite (or (fp.isNaN %[1]s) (fp.lt %[1]s ((_ to_fp 11 53) %[2]s)) (fp.geq %[1]s ((_ to_fp 11 53) %[3]s))) %[4]s ((_ fp.to_sbv %[5]d) RTZ %[1]s))",
 			r(0), bvLit(64, lo), bvLit(64, hi), bvLit(t.w, uint64(1)<<uint(t.w-1)), t.w)
+	case OMulHiS:
+		return fmt.Sprintf("((_ extract 127 64) (bvmul ((_ sign_extend 64) %s) ((_ sign_extend 64) %s)))", r(0), r(1))
 	case OUF:
 		if _, ok := p.ufs[t.name]; !ok {
 			p.ufs[t.name] = t
@@ -1131,6 +1158,8 @@ func evalTerm(t *Term, env map[string]uint64, memo map[int]uint64) uint64 {
 		} else {
 			v = a(2)
 		}
+	case OMulHiS:
+		v = uint64(mulHiS(int64(a(0)), int64(a(1))))
 	case OFAdd:
 		v = math.Float64bits(math.Float64frombits(a(0)) + math.Float64frombits(a(1)))
 	case OFSub:
